@@ -14,6 +14,8 @@ pub mod c03;
 pub mod c04;
 pub mod c21;
 pub mod c26;
+pub mod c27;
+pub mod c28;
 
 pub fn registry() -> Vec<Prop> {
     vec![
@@ -23,5 +25,7 @@ pub fn registry() -> Vec<Prop> {
         Prop { id: "C04", run: c04::run, replay: c04::replay },
         Prop { id: "C21", run: c21::run, replay: c21::replay },
         Prop { id: "C26", run: c26::run, replay: c26::replay },
+        Prop { id: "C27", run: c27::run, replay: c27::replay },
+        Prop { id: "C28", run: c28::run, replay: c28::replay },
     ]
 }
